@@ -286,6 +286,9 @@ def eigen(X, P, NSIG=None, method='music', threshold=None, NFFT=default_NFFT,
     NSIG  = _get_signal_space(S, 2*NP,
                              verbose=verbose, threshold=threshold,
                              NSIG=NSIG, criteria=criteria)
+    if NSIG >= P:
+        # e.g. a threshold below 1 keeps every singular value: no noise subspace is left
+        raise ValueError("the signal subspace must be stricly smaller than IP (check threshold)")
 
     #C   AI or Expert Knowledge to choose "signal" singular values, or input
     #C   NSIG at this point
